@@ -389,6 +389,33 @@ func csvPermuted(cc *run.Case) bool {
 		cc.Viol("", "Csv[rowAll]: the same codec value reading a second file with another column order: "+msg, map[string]any{"header1": hdr, "header2": hdr2})
 		return false
 	}
+	// ... and the same codec value, after having read files in other column
+	// orders, must still WRITE rows that a fresh codec reads back identically.
+	dir, err := os.MkdirTemp("", "verif-c11p-")
+	if err != nil {
+		cc.Inconclusive(err.Error())
+		return false
+	}
+	defer os.RemoveAll(dir)
+	file := filepath.Join(dir, "rewritten.csv")
+	if err := c.WriteToFile(file, helper.SliceToChan(rows)); err != nil {
+		cc.Viol("", "Csv[rowAll]: WriteToFile through a codec that has read a permuted file failed: "+err.Error(), nil)
+		return false
+	}
+	if err := c.AppendToFile(file, helper.SliceToChan(rows)); err != nil {
+		cc.Viol("", "Csv[rowAll]: AppendToFile through a codec that has read a permuted file failed: "+err.Error(), nil)
+		return false
+	}
+	back, err := helper.ReadFromCsvFile[rowAll](file, true)
+	if err != nil {
+		cc.Viol("", "Csv[rowAll]: reading back the rewritten file failed: "+err.Error(), nil)
+		return false
+	}
+	if msg := sameRows(helper.ChanToSlice(back), append(append([]*rowAll(nil), rows...), rows...)); msg != "" {
+		raw, _ := os.ReadFile(file)
+		cc.Viol("", "Csv[rowAll]: a codec value that has read files with permuted headers writes rows that do not read back identically: "+msg, map[string]any{"header1": hdr, "header2": hdr2, "file": clipStr(string(raw), 500)})
+		return false
+	}
 	cc.Count("permuted_files", 2)
 	cc.Count("rows_compared", int64(2*len(rows)))
 	return true
